@@ -90,3 +90,19 @@ Proof.
   intros T f n l m H Hm. destruct (lin_member _ _ _ _ _ H Hm) as [l' [Hl' _]].
   exists l'. apply (lin_le T (pred f) f); [lia | assumption].
 Qed.
+
+(* the list of a class is duplicate free and strictly longer than the list of each direct superclass *)
+Lemma lin_nodup : forall T f n l, lin T f n = Some l -> NoDup l.
+Proof.
+  intros T f n l H. destruct f as [|f]; [discriminate|].
+  destruct (lin_inv _ _ _ _ H) as [supers [ls [_ [_ ->]]]]. apply kf_NoDup.
+Qed.
+Lemma lin_super_shorter : forall T f n l supers s, lin T (S f) n = Some l -> T n = Some supers -> In s supers ->
+  exists ls, lin T f s = Some ls /\ length ls < length l.
+Proof.
+  intros T f n l supers s H HT Hs. destruct (lin_supers _ _ _ _ _ H HT) as [Hin Hsup].
+  destruct (Hsup s Hs) as [ls [Hls Hincl]]. exists ls. split; [assumption|].
+  assert (NoDup (s :: ls)) as Hnd by (constructor; [eapply lin_acyclic; eassumption | eapply lin_nodup; eassumption]).
+  assert (incl (s :: ls) l) as Hi by (intros x [<-|Hx]; [apply Hin; assumption | apply Hincl; assumption]).
+  pose proof (NoDup_incl_length Hnd Hi) as Hlen. simpl in Hlen. lia.
+Qed.
